@@ -3,10 +3,12 @@
 package c17
 
 import (
+	"bytes"
 	"crypto"
 	"crypto/rsa"
 	"crypto/sha256"
 	"fmt"
+	"io"
 	"testing"
 
 	"github.com/cloudflare/circl/group"
@@ -176,7 +178,7 @@ func sharesBytes(ss []secretsharing.Share) []byte {
 // partial signatures of freshly decoded shares of the other players.
 func TestVerifTSSReload(t *testing.T) {
 	const mon = "TestVerifTSSReload"
-	lib.Mandatory("tss:reload-cached-over-uncached", "tss:reload-uncached-over-cached", "tss:reload-other-dealing", "tss:reload-signshare")
+	lib.Mandatory("tss:short-read-randomness", "tss:reload-cached-over-uncached", "tss:reload-uncached-over-cached", "tss:reload-other-dealing", "tss:reload-signshare")
 	keyA := loadKey(t, "plain-1024")
 	keyB := loadKey(t, "safe-1024")
 	type cs struct {
@@ -193,9 +195,26 @@ func TestVerifTSSReload(t *testing.T) {
 		c := cases[ci]
 		r := lib.NewRng("c17/tss-reload", ci)
 		pub := &keyA.k.PublicKey
-		// the dealing that matters
+		// the dealing that matters; the dealer's randomness arrives in short
+		// pieces every other time and must give the same shares
 		newCached := c.v%2 == 0
-		cur, err := tss.Deal(r, c.l, c.k, keyA.k, newCached)
+		dealBytes := r.Bytes(1 << 13)
+		var dealRd io.Reader = bytes.NewReader(dealBytes)
+		if c.v%4 < 2 {
+			dealRd = &lib.ShortReader{R: bytes.NewReader(dealBytes)}
+			lib.Count("tss:short-read-randomness")
+		}
+		cur, err := tss.Deal(dealRd, c.l, c.k, keyA.k, newCached)
+		if ref, rerr := tss.Deal(bytes.NewReader(dealBytes), c.l, c.k, keyA.k, newCached); rerr == nil && err == nil {
+			for i := range ref {
+				a, _ := ref[i].MarshalBinary()
+				b, _ := cur[i].MarshalBinary()
+				if !lib.Eq(a, b) {
+					lib.Violation("C17:dealing-depends-on-how-the-randomness-is-delivered:tss-rsa:Deal", mon, lib.D("l", c.l, "k", c.k, "player", i+1))
+					return
+				}
+			}
+		}
 		if err != nil {
 			lib.Violation("C17:deal-fails:tss-rsa", mon, lib.D("err", err))
 			return
